@@ -307,4 +307,41 @@ static inline const char *vf_tokenum_label(const vf_tokenum *e)
     return s;
 }
 
+/* ---------------------------------------------------------------- E-MUT
+ * All one-deviation mutants of a byte string: every byte set to each value of
+ * a 12-value byte alphabet, truncation after every byte, deletion and
+ * duplication of every byte, every hostile token appended after the end and
+ * inserted before the last byte, every byte +1 / -1. The callback gets the
+ * mutant and a description. */
+typedef void (*vf_mut_cb)(const uint8_t *m, size_t n, const char *what, void *u);
+static const uint8_t vf_mut_bytevals[] = { 0x00, 0x01, 0x10, 0x14, 0x18, 0x40, 0x41, 0x42, 0x43, 0x7f, 0x80, 0xff };
+static void vf_mutants(const uint8_t *b, size_t n, uint8_t *scratch, size_t cap, vf_mut_cb cb, void *u)
+{
+    char what[80];
+    uint8_t *m = scratch;
+    if (n + 16 > cap) return;
+    for (size_t i = 0; i < n; i++) {
+        for (size_t v = 0; v < sizeof vf_mut_bytevals + 2; v++) {
+            uint8_t nv = v < sizeof vf_mut_bytevals ? vf_mut_bytevals[v] : (uint8_t) (b[i] + (v == sizeof vf_mut_bytevals ? 1 : -1));
+            if (b[i] == nv) continue;
+            bool dup = false;
+            if (v >= sizeof vf_mut_bytevals) for (size_t k = 0; k < sizeof vf_mut_bytevals; k++) if (vf_mut_bytevals[k] == nv) dup = true;
+            if (dup) continue;
+            memcpy(m, b, n); m[i] = nv;
+            snprintf(what, sizeof what, "byte %zu := %02x", i, nv);
+            cb(m, n, what, u);
+        }
+    }
+    for (size_t i = 0; i < n; i++) {
+        memcpy(m, b, i); snprintf(what, sizeof what, "truncated to %zu", i); cb(m, i, what, u);
+        memcpy(m, b, i); memcpy(m + i, b + i + 1, n - i - 1); snprintf(what, sizeof what, "byte %zu deleted", i); cb(m, n - 1, what, u);
+        memcpy(m, b, i + 1); memcpy(m + i + 1, b + i, n - i); snprintf(what, sizeof what, "byte %zu duplicated", i); cb(m, n + 1, what, u);
+    }
+    for (int t = 0; t < VF_NTOK_HOSTILE; t++) {
+        const vf_tok *tk = &vf_tok_hostile[t];
+        memcpy(m, b, n); memcpy(m + n, tk->b, tk->n); snprintf(what, sizeof what, "token %s appended", tk->label); cb(m, n + tk->n, what, u);
+        if (n) { memcpy(m, b, n - 1); memcpy(m + n - 1, tk->b, tk->n); m[n - 1 + tk->n] = b[n - 1]; snprintf(what, sizeof what, "token %s inserted before the last byte", tk->label); cb(m, n + tk->n, what, u); }
+    }
+}
+
 #endif
